@@ -283,6 +283,24 @@ template <typename PH> void s_from_box(Ctx& c) {
   static fi::RegS FI_CAT(regc_, __LINE__)("C_Polyhedron." opname, fn<C_Polyhedron, K>); \
   static fi::RegS FI_CAT(regn_, __LINE__)("NNC_Polyhedron." opname, fn<NNC_Polyhedron, K>)
 
+// NNC only: strong minimization of the constraints.  A box that is closed at its lower corner plus several strict
+// inequalities that cut away exactly that corner: all but one of them are epsilon-redundant, and once one is removed the
+// upper bound of the epsilon dimension has to be re-established with an auxiliary LP (Polyhedron::strongly_minimize_constraints).
+static void s_strong_min_constraints(Ctx& c) {
+  int n = rnd(2, hx::opt().thorough ? 4 : 3);
+  std::vector<int> pt = rpoint(n);
+  NNC_Polyhedron p(n);
+  // the box is small (sides 1/d, d > 2n) and the coefficients of the strict inequalities are at most 2: the slack of every strict
+  // inequality stays below 1 on the whole polyhedron, so that "epsilon <= 1" is redundant and absent from the minimized system
+  for (int i = 0; i < n; ++i) { int d = rnd(2 * n + 1, 2 * n + 5); p.add_constraint(Variable(i) >= pt[i]); p.add_constraint(d * Variable(i) <= d * pt[i] + 1); }
+  int m = rnd(2, 3);
+  for (int j = 0; j < m; ++j) { Linear_Expression e; Coefficient k = 0; for (int i = 0; i < n; ++i) { int a = rnd(1, 2); e += a * Variable(i); k += a * pt[i]; } p.add_constraint(e > k); }
+  if (coin(30)) (void) p.minimized_generators();
+  c.run([&] { (void) p.minimized_constraints(); });
+  c.result([&] { return val(p); });
+  c.post("p", p, fresh<NNC_Polyhedron>(n), use<NNC_Polyhedron>, EQ);
+}
+static fi::RegS reg_strong_min_cons("NNC_Polyhedron.strong_minimization_of_constraints", s_strong_min_constraints);
 REG2("minimize_constraints", s_min_from_cons);
 REG2("minimize_generators", s_min_from_gens);
 REG2("add_constraint", s_add_constraint);
